@@ -85,22 +85,6 @@ theorem rtf_arith0 {p r S : Rat} (hp : p.abs ≤ 1099511627776)
 
 /-! ### drift -/
 
-theorem tdiv_tmod_facts (d : Int) :
-    d = Int.tdiv d 1000000000 * 1000000000 + Int.tmod d 1000000000 ∧
-    (0 ≤ d → 0 ≤ Int.tmod d 1000000000 ∧ Int.tmod d 1000000000 ≤ d) ∧
-    (d ≤ 0 → d ≤ Int.tmod d 1000000000 ∧ Int.tmod d 1000000000 ≤ 0) ∧
-    (Int.tmod d 1000000000).natAbs < 1000000000 := by
-  by_cases h : 0 ≤ d
-  · rw [Int.tdiv_eq_ediv_of_nonneg h, Int.tmod_eq_emod_of_nonneg h]
-    omega
-  · have h' : 0 ≤ -d := by omega
-    have e1 : Int.tdiv d 1000000000 = -((-d) / 1000000000) := by
-      rw [← Int.tdiv_eq_ediv_of_nonneg h', Int.neg_tdiv]; omega
-    have e2 : Int.tmod d 1000000000 = -((-d) % 1000000000) := by
-      rw [← Int.tmod_eq_emod_of_nonneg h', Int.neg_tmod]; omega
-    rw [e1, e2]
-    omega
-
 /-- L1: seconds as a double -/
 theorem drift_L1 {D sec n fr Sv η : Rat} (hη0 : 0 ≤ η) (hη : η ≤ 1 / 1152921504606846976)
     (hD : D = sec + n) (hDb : D.abs ≤ 17179869184)
